@@ -38,6 +38,11 @@ pub trait Check: Sync {
     fn worker_env(&self, _ctx: &Ctx) -> Vec<(String, String)> {
         vec![]
     }
+    /// true for cases that are expected to be able to kill the worker: the
+    /// observations gathered so far are sent to the parent before they run
+    fn risky(&self, _ctx: &Ctx, _idx: u64) -> bool {
+        false
+    }
 }
 
 // sub-case marker: a small shared file the worker updates with plain stores,
@@ -140,6 +145,11 @@ pub fn run_worker_loop(check: &dyn Check, ctx: &Ctx, wa: &WorkerArgs) {
     let mut last_flush = std::time::Instant::now();
     SUBSKIP.store(wa.subskip, Ordering::Relaxed);
     while idx < n {
+        if check.risky(ctx, idx) && (since > 0 || frag.evaluations > 0) {
+            io.frag(&frag);
+            frag = Frag::new();
+            since = 0;
+        }
         io.begin(idx, &check.label(ctx, idx));
         sub_mark("");
         sub_clear_ordinal();
